@@ -235,6 +235,7 @@ def run_case(ex, case):
         return
     # one more operation on both, then a follow-up assignment to every location
     ops = [o for o in c03.list_ops(st.defs, locs) if not str(o[1]).startswith("K-")]
+    ops = [o for o in ops if not (o[0] == "loadn" and len(o) > 2)]      # the overwrite=False variant is C03's subject
     if case.get("plain"):
         ops = ops[:1]          # the long frozen phase is the subject here; one fixed operation after unfreezing
     op = ops[ex.choose(len(ops))]
@@ -295,7 +296,7 @@ def managers(locs, ndefs):
 def cases(tier):
     out = []
     if tier == "quick":
-        ms = managers(LOCS, 1)[::2] + [m for m in managers(LOCS, 2) if len(m) == 2][::12]
+        ms = managers(LOCS, 1)[::2] + [m for m in managers(LOCS, 2) if len(m) == 2][::15]
         for m in ms:
             st_defs = {t: c01._tup(d) for t, d in m}
             n = len(_calls_for(st_defs, LOCS))
@@ -304,7 +305,6 @@ def cases(tier):
         # inputs with hash-colliding keys (-1 / -2) and different dependants
         KL = ["a", "b", "K-1", "K-2"]
         for m in ([["a", ["mul", ["loc", "K-1"], ["const", 2]]], ["b", ["add", ["loc", "K-2"], ["const", 1]]]],
-                  [["a", ["add", ["loc", "K-1"], ["loc", "K-2"]]], ["b", ["neg", ["loc", "K-2"]]]],
                   [["b", ["sub", ["loc", "K-1"], ["loc", "a"]]]]):
             st_defs = {t: c01._tup(d) for t, d in m}
             n = len(_calls_for(st_defs, KL))
